@@ -423,6 +423,25 @@ def discharge(f, p, i, ev, kind):
         idx = idx
         while idx[0] == "ref":
             idx = idx[1]
+        # a slice of a tail: `x[a..][..b]` needs a + b <= len(x) (the first step, `x[a..]`, is its own site)
+        r0 = recv
+        while isinstance(r0, tuple) and r0 and r0[0] in ("ref", "deref"):
+            r0 = r0[1]
+        if isinstance(r0, tuple) and r0 and r0[0] in ("call", "pure") and short(r0[1]) == "index" and len(r0[2]) == 2 and idx[0] == "agg" and \
+                (idx[2] or "").endswith("RangeTo") and len(idx[4]) == 1:
+            fr = r0[2][1]
+            while fr[0] == "ref":
+                fr = fr[1]
+            if fr[0] == "agg" and (fr[2] or "").endswith("RangeFrom") and len(fr[4]) == 1 and strip_casts(fr[4][0])[0] == "int":
+                a = strip_casts(fr[4][0])[1]
+                b = strip_casts(idx[4][0])
+                key0 = view_key(r0[2][0])
+                lf0 = LenFacts(conds, key0)
+                if b[0] == "int":
+                    return lf0.ge_const(a + b[1]), "need %d + %d <= len %s" % (a, b[1], lf0.iv)
+                # `x[a..][..x.len() - k]` with k >= a: a + len - k <= len (the subtraction is its own overflow site)
+                if b[0] == "binop" and b[1] == "Sub" and strip_casts(b[3])[0] == "int" and strip_casts(b[3])[1] >= a and buffer_key(b[2]) == key0:
+                    return True, "tail of length len-%d taken after skipping %d" % (strip_casts(b[3])[1], a)
         if idx[0] == "agg":
             rname = (idx[2] or "")
             ops = idx[4]
